@@ -27,18 +27,19 @@ T = TypeVar('T')
 def _with_tags_buildable_path(
     value: T,
     tags: Union[tag_type.TagType, Collection[tag_type.TagType]],
+    *more_tags: tag_type.TagType,
 ) -> tagging.TaggedValueCls[T]:
   """Make a `buildable_func` for `AutoConfig`."""
   if isinstance(tags, tag_type.TagType):
-    return tagging.TaggedValue([tags], value)
-  else:
-    return tagging.TaggedValue(tags, value)
+    tags = [tags]
+  return tagging.TaggedValue([*tags, *more_tags], value)
 
 
 @auto_config.with_buildable_func(_with_tags_buildable_path)
 def with_tags(
     value: T,
     tags: Union[tag_type.TagType, Collection[tag_type.TagType]],
+    *more_tags: tag_type.TagType,
 ) -> T:
   """Set tags for a parameter within auto_config.
 
@@ -68,10 +69,12 @@ def with_tags(
   Args:
     value: Default value for the paramter.
     tags: Tags to apply. It can be one tag or a list of tags.
+    *more_tags: Further tags (the code generators emit several tags as separate
+      positional arguments).
 
   Returns:
     When called within `auto_config`ed function, return a tagged value.
       Otherwise, aka in normal Python mode, return the default value.
   """
-  del tags
+  del tags, more_tags
   return value
